@@ -16,7 +16,7 @@ def sh(cmd, cwd, timeout=1800):
     return p.returncode, p.stdout
 
 def main():
-    ids = sys.argv[1:] or sorted(os.listdir("/verif/seeded"))
+    ids = sys.argv[1:] or sorted(d for d in os.listdir("/verif/seeded") if os.path.isdir(os.path.join("/verif/seeded", d)))
     shutil.rmtree(WT, ignore_errors=True)
     os.makedirs("/tmp/seedchk", exist_ok=True)
     rc, out = sh("git -C /repo worktree prune; git -C /repo worktree add --detach %s HEAD" % WT, "/")
